@@ -377,12 +377,15 @@ func (f *flow) analyse(fl *ast.FuncLit) {
 	// loop heads: targets of back edges (DFS)
 	color := map[*cfg.Block]int{}
 	heads := map[*cfg.Block]bool{}
+	type edge struct{ from, to *cfg.Block }
+	backEdge := map[edge]bool{}
 	var dfs func(b *cfg.Block)
 	dfs = func(b *cfg.Block) {
 		color[b] = 1
 		for _, s := range b.Succs {
 			if color[s] == 1 {
 				heads[s] = true
+				backEdge[edge{b, s}] = true
 			} else if color[s] == 0 {
 				dfs(s)
 			}
@@ -394,11 +397,12 @@ func (f *flow) analyse(fl *ast.FuncLit) {
 	}
 	dfs(g.Blocks[0])
 	type item struct {
-		b *cfg.Block
-		s *astate
+		b    *cfg.Block
+		s    *astate
+		from *cfg.Block
 	}
 	init := &astate{pos: "E", tok: "K", snap: map[string]string{}, know: map[string]string{}, cbind: map[string]string{}}
-	work := []item{{g.Blocks[0], init}}
+	work := []item{{g.Blocks[0], init, nil}}
 	seen := map[string]bool{}
 	steps := 0
 	type inv struct{ pos, tok string }
@@ -415,28 +419,34 @@ func (f *flow) analyse(fl *ast.FuncLit) {
 		if heads[b] {
 			id := fmt.Sprintf("%d", b.Index)
 			marker := "loop#" + id
-			inLoop := false
-			for _, h := range s.hist {
-				if strings.HasPrefix(h, marker+"(") {
-					inLoop = true
-				}
+			tag := histLoopTag(s.hist, marker)
+			if !backEdge[edge{it.from, b}] {
+				tag = "" // entered from outside: a new execution of this repetition
 			}
-			if inLoop {
-				// back-edge arrival: must be exactly one more successful iteration
-				iv := invs[marker+"/"+histLoopTag(s.hist, marker)]
+			switch {
+			case tag == "":
+				// first arrival: zero iterations so far, the state is exact
+				s = s.clone()
+				s.nloop++
+				tag = fmt.Sprintf("%d", s.nloop)
+				s.hist = append(s.hist, fmt.Sprintf("%s(%s)from(%s,%s)", marker, tag, s.pos, s.tok))
+				invs[marker+"/"+tag] = inv{"I" + tag + "(" + s.pos + ")", "J" + tag + "(" + s.tok + ")"}
+			case !histHas(s.hist, marker+"("+tag+")+"):
+				// first back edge: one iteration succeeded; from here on the state is the
+				// invariant "entry advanced by one or more successful iterations"
+				iv := invs[marker+"/"+tag]
+				s = s.clone()
+				s.hist = append(s.hist, marker+"("+tag+")+")
+				s.pos, s.tok = iv.pos, iv.tok
+			default:
+				// later back edges must be the invariant advanced by one more iteration
+				iv := invs[marker+"/"+tag]
 				if !(strings.HasSuffix(strings.TrimRight(s.pos, ")"), "("+strings.TrimRight(iv.pos, ")")) && tokDerived(s.tok, iv.tok)) {
 					o := outcome{Kind: "loop-back-edge", Pos: s.pos, Tok: s.tok, Hist: s.hist, Flags: append(s.flags, "the state at the repetition's back edge is not 'invariant advanced by one successful iteration of the body' (position "+s.pos+", tokens "+s.tok+" vs invariant "+iv.pos+", "+iv.tok+")")}
 					f.outs[o.String()] = o
 				}
 				continue
 			}
-			s = s.clone()
-			s.nloop++
-			tag := fmt.Sprintf("%d", s.nloop)
-			ipos, itok := "I"+tag+"("+s.pos+")", "J"+tag+"("+s.tok+")"
-			s.hist = append(s.hist, fmt.Sprintf("%s(%s)from(%s,%s)", marker, tag, s.pos, s.tok))
-			invs[marker+"/"+tag] = inv{ipos, itok}
-			s.pos, s.tok = ipos, itok
 		}
 		k := fmt.Sprintf("%d|", b.Index) + s.key()
 		if seen[k] {
@@ -468,10 +478,10 @@ func (f *flow) analyse(fl *ast.FuncLit) {
 		}
 		if branched {
 			for _, st := range condTrue {
-				work = append(work, item{b.Succs[0], st})
+				work = append(work, item{b.Succs[0], st, b})
 			}
 			for _, st := range condFalse {
-				work = append(work, item{b.Succs[1], st})
+				work = append(work, item{b.Succs[1], st, b})
 			}
 			continue
 		}
@@ -480,7 +490,7 @@ func (f *flow) analyse(fl *ast.FuncLit) {
 				continue
 			}
 			for _, su := range b.Succs {
-				work = append(work, item{su, st})
+				work = append(work, item{su, st, b})
 			}
 			if len(b.Succs) == 0 && !isReturnBlock(b) {
 				// fell off the end of the function body
@@ -489,6 +499,15 @@ func (f *flow) analyse(fl *ast.FuncLit) {
 			}
 		}
 	}
+}
+
+func histHas(hist []string, entry string) bool {
+	for _, h := range hist {
+		if h == entry {
+			return true
+		}
+	}
+	return false
 }
 
 func histLoopTag(hist []string, marker string) string {
